@@ -266,6 +266,11 @@ func WatchHits() int                  { return 0 }
 func WatchHitsTag(tag string) int     { return 0 }
 func WatchChangedTag(tag string) int  { return 0 }
 
+// RaceBegin/RaceCount: happens-before data-race detection over the explored schedules (engine only; natively
+// the Go race detector is the counterpart: go test -race).
+func RaceBegin()     {}
+func RaceCount() int { return 0 }
+
 // NativeCheck runs f in the compiled harness (replay); under the engine it is true without running f.
 func NativeCheck(f func() bool) bool { return f() }
 func WatchEnd()                       {}
